@@ -61,7 +61,13 @@ def check_step(kd, old, new, marked, label, uniform_steps=None):
     nto, ntn = old.t.shape[1], new.t.shape[1]
     if uniform_steps is not None and ntn != (2 ** (d * uniform_steps)) * nto:
         fails.append("COUNT: %d cells after %d uniform steps of a %d-cell mesh (expected %d)" % (ntn, uniform_steps, nto, 2 ** (d * uniform_steps) * nto))
-    if not new.is_valid():
+    if type(new).__name__.endswith("2"):
+        # second-order classes: is_valid() is False for EVERY such mesh (the mid-side nodes are points that no row of t refers to), so the clause is
+        # evaluated directly: all point coordinates distinct, every vertex number of t in range
+        P = np.round(new.doflocs.T, 12)
+        if len(np.unique(P, axis=0)) != len(P) or new.t.max() >= new.doflocs.shape[1] or new.t.min() < 0:
+            fails.append("VALID: refined second-order mesh has duplicate points or vertex numbers out of range")
+    elif not new.is_valid():
         fails.append("VALID: refined mesh fails is_valid() (duplicate or unused vertices)")
     nvo = old.p.shape[1]
     if new.p.shape[1] < nvo or not np.array_equal(new.p[:, :nvo], old.p):
@@ -185,6 +191,11 @@ def run(payload):
     cases, failures, samples = 0, [], []
     kinds = None if what == "uniform" else ("line", "tri", "tet")
     def family():
+        if what == "uniform":
+            # second-order classes with straight facets
+            import skfem as fem
+            yield "tri2-quadratic", fem.MeshTri2.from_mesh(fem.MeshTri.init_sqsymmetric())
+            yield "quad2-quadratic", fem.MeshQuad2.from_mesh(fem.MeshQuad().refined(1))
         for label, m0 in Z.zoo(tier, seed, kinds=kinds, variants=1 if tier == "quick" else 3):
             yield label, m0
             if G.kind_of(m0) in ("tri", "tet") and "~" not in label and hasattr(m0, "oriented"):
